@@ -17,6 +17,12 @@ T = {
  'c19c': ('a for loop nested inside a loop that STRICT refuses (static trip count not a multiple)', 'C19 candidate-neither-site-nor-refusal (needed nest_trip and listing with strategy parameters)'),
  'c19d': ('a statement rewrite rule whose right-hand side re-matches its left-hand side, applied with repeat >= 2, and a cursor after the window', 'C19 edit-log-miscounts / forward-unrelated (needed the peel rule and the edit-log arithmetic check)'),
  'c19e': ('a cursor of one branch of the derivation tree (or of a descendant) used on a sibling branch / the root', 'C19 forward-across-unrelated'),
+ 'c17e': ('IEEE/EFloat/MPBFloat stochastic context, value arriving through an inexact operation (div, sqrt, ...) or a non-dyadic Fraction, typically k >= 2', 'C17 count-mismatch on op_* / Fraction routes'),
+ 'c17f': ('negative operand under base mode RTP or RTN whose distance past the lower neighbour is not a multiple of 2^-k of the gap', 'C17 count-mismatch'),
+ 'c18g': ('thread A held between the two stores of its first compile of a pinned-context function on the shared interpreter, thread B making its first call of that function in the window', 'C18 A3/H1 (needed hold-back scheduling, pinned-context workloads)'),
+ 'c18h': ('a Float argument (or its exact negation) explicitly rounded by the program under a bounded format it overflows', 'C18 A1-argument-modified (needed narrow* workloads and large Float arguments)'),
+ 'c19f': ('inline of a call sitting in the header of a compound statement (if condition, for iterable), and an expression cursor into that header', 'C19 forward-expr-unrelated (needed expression cursors into headers and calls in headers)'),
+ 'c19g': ('one pass (region aim / where=None) rewriting a site nested under an earlier sibling statement and then a later site of the outer block', 'C19 edit-log-miscounts'),
 }
 base = os.path.join(os.path.dirname(os.path.dirname(os.path.abspath(__file__))), 'seeded')
 for mid, (needs, caught) in T.items():
